@@ -118,6 +118,12 @@ func (t *Tokenizer) Load(r io.Reader, handler oj.TokenHandler) (err error) {
 	}()
 	var cnt int
 	cnt, err = r.Read(buf)
+	// A BOM must not be missed because it is split across reads.
+	for err == nil && 0 < cnt && cnt < 4 && buf[0] == 0xEF {
+		var n int
+		n, err = r.Read(buf[cnt:])
+		cnt += n
+	}
 	buf = buf[:cnt]
 	t.mode = valueMap
 	if err != nil {
